@@ -18,6 +18,14 @@ def sh(cmd, **kw):
     return p.returncode, p.stdout + p.stderr
 
 
+def digest_of(cmd, **kw):
+    """sha256 of the complete standard output of the differential check (stderr noise of third-party imports ignored)"""
+    import hashlib
+    p = subprocess.run(cmd, capture_output=True, text=True, **kw)
+    body = p.stdout.strip()
+    return "%s rc=%d lines=%d" % (hashlib.sha256(body.encode()).hexdigest()[:32], p.returncode, len(body.splitlines())) if body else ""
+
+
 def props():
     return [c["property_id"] for c in json.load(open(os.path.join(VERIF, "MANIFEST.json")))["checks"]]
 
@@ -32,16 +40,14 @@ def one(d):
         env = dict(os.environ, PYTHONPATH=wt, PYTHONDONTWRITEBYTECODE="1")
         dc = os.path.join(d, "diffcheck.py")
         if os.path.isfile(dc) and not os.environ.get("SKIP_CONFIRM"):
-            rc, out0 = sh(["/venv/bin/python", dc], cwd=d, env=env)
-            res["confirm"]["digest_clean"] = out0.strip().splitlines()[-1][:80] if out0.strip() else ""
+            res["confirm"]["digest_clean"] = digest_of(["/venv/bin/python", dc], cwd=d, env=env)
         rc, out = sh(["git", "-C", wt, "apply", os.path.join(d, "patch.diff")])
         res["confirm"]["applies"] = rc == 0
         if rc:
             res["confirm"]["err"] = out[-200:]
             return res
         if os.path.isfile(dc) and not os.environ.get("SKIP_CONFIRM"):
-            rc, out1 = sh(["/venv/bin/python", dc], cwd=d, env=env)
-            res["confirm"]["digest_patched"] = out1.strip().splitlines()[-1][:80] if out1.strip() else ""
+            res["confirm"]["digest_patched"] = digest_of(["/venv/bin/python", dc], cwd=d, env=env)
             res["confirm"]["same_digest"] = res["confirm"]["digest_clean"] == res["confirm"]["digest_patched"] != ""
             rc, out = sh(["/venv/bin/python", os.path.join(VERIF, "tools", "baseline.py"), wt])
             res["confirm"]["baseline_ok"] = rc == 0
